@@ -24,7 +24,7 @@ PROPS = {"C13": dict(
     technique="model-based state machine + exhaustive crash-prefix enumeration over a traced system-call sequence + bounded reader/writer stress",
     budget={"quick": 900, "thorough": 3600},
     units=[
-        rapid("ctlog", "internal/ctlog", "^TestVerifC13Model$", 300, 1000),
+        rapid("ctlog", "internal/ctlog", "^TestVerifC13Model$", 300, 600),
         rapid("ctlog", "internal/ctlog", "^TestVerifC13Crash$", 40, 40),
         plain("ctlog", "internal/ctlog", "^TestVerifC13Readers$", 3, 6, qs=1, ts=4),
         _readers_race,
